@@ -42,3 +42,20 @@ def comps(A):
 def exact_scaled(Ai, e):
     """integer array * 2^e as float (exact when representable)."""
     return np.ldexp(np.asarray(Ai, dtype=object).astype(float), e)
+
+
+def relayout(Aq, layout):
+    """Same logical quaternion array in a different memory layout: 'C' (as is), 'F' (Fortran order),
+    'view' (non-contiguous strided view into a larger buffer), 'T' (transposed view of the transposed data)."""
+    if layout == "C":
+        return Aq
+    if layout == "F":
+        return np.asfortranarray(Aq)
+    if layout == "T":
+        return np.ascontiguousarray(Aq.T).T
+    if layout == "view":
+        big = np.zeros(tuple(2 * d + 1 for d in Aq.shape), dtype=Aq.dtype)
+        sl = tuple(slice(1, None, 2) for _ in Aq.shape)
+        big[sl] = Aq
+        return big[sl]
+    raise ValueError(layout)
